@@ -58,6 +58,40 @@ class MultiModel:
             r = m.eval(r, model_completion=False)
         return self.models[-1].eval(r, model_completion=True) if self.models else z3.simplify(r)
 
+# ---- second opinions (thorough tier): every XSOLVER-th decided query is written as SMT-LIB2 and given to z3 4.8.12 (the system
+# z3, a different code base age than the 5.1.0 API) and cvc5; a definite answer that differs is recorded and makes the check
+# INCONCLUSIVE. Time-outs / unknown / errors of the second solvers are counted but decide nothing.
+XSOLVER = int(os.environ.get('VERIF_XSOLVER', '0') or 0)
+XSTATS = dict(sampled=0, agree=0, other_unknown=0, disagree=[])
+_xcount = [0]
+def cross_check(s, r):
+    import subprocess, tempfile
+    _xcount[0] += 1
+    if _xcount[0] % XSOLVER: return
+    XSTATS['sampled'] += 1
+    mine = 'sat' if r == z3.sat else 'unsat'
+    with tempfile.NamedTemporaryFile('w', suffix='.smt2', delete=False) as f:
+        f.write(s.to_smt2()); path = f.name
+    try:
+        for cmd in (['/usr/bin/z3', '-T:20', path], ['cvc5', '--tlimit=20000', path]):
+            try:
+                out = subprocess.run(cmd, capture_output=True, text=True, timeout=40).stdout
+            except Exception:
+                XSTATS['other_unknown'] += 1; continue
+            if '(error' in out: XSTATS['other_unknown'] += 1; continue
+            ans = out.strip().split('\n')[0].strip() if out.strip() else ''
+            if ans not in ('sat', 'unsat'): XSTATS['other_unknown'] += 1
+            elif ans == mine: XSTATS['agree'] += 1
+            else:
+                keep = path + '.disagree'
+                try: os.replace(path, keep); path = keep
+                except OSError: pass
+                XSTATS['disagree'].append(dict(solver=cmd[0], theirs=ans, ours=mine, query=path))
+    finally:
+        if not path.endswith('.disagree'):
+            try: os.unlink(path)
+            except OSError: pass
+
 class PathSolver:
     def __init__(self, timeout_ms=30000):
         self.asserts = []      # (formula, frozenset(symbols))
@@ -105,6 +139,7 @@ class PathSolver:
         s.set('timeout', self.timeout_ms)
         s.add(fs)
         r = s.check()
+        if XSOLVER and r != z3.unknown: cross_check(s, r)
         return r, (s.model() if r == z3.sat else None), (s.reason_unknown() if r == z3.unknown else '')
     INC_THRESHOLD = 400
     def try_incremental(self, extra, need_model=True):
